@@ -564,7 +564,7 @@ pub fn run(ctx: &Ctx) {
     ctx.merge(st);
 
     // generated integer texts
-    let cases = ctx.tier.pick(150_000u64, 12_000_000u64);
+    let cases = ctx.tier.pick(1_500_000u64, 15_000_000u64);
     let strat = (any::<u8>(), any::<u8>(), proptest::collection::vec(any::<u8>(), 1..41), any::<u8>());
     run_prop(ctx, "int-texts", cases, strat, |(form, sign, digits, lz), st| {
         let it = int_text(*form, *sign, digits, *lz);
@@ -589,7 +589,7 @@ pub fn run(ctx: &Ctx) {
     });
 
     // generated float texts
-    let cases = ctx.tier.pick(200_000u64, 15_000_000u64);
+    let cases = ctx.tier.pick(2_000_000u64, 20_000_000u64);
     let strat = (
         any::<u8>(),
         proptest::collection::vec(any::<u8>(), 1..22),
@@ -659,7 +659,7 @@ pub fn run(ctx: &Ctx) {
         }
     }
     // enum items: exhaustive over (enumeration spec, version, item) -- sampled in quick
-    let stride = ctx.tier.pick(7usize, 1usize);
+    let stride = ctx.tier.pick(2usize, 1usize);
     let enum_slots: Vec<&(usize, usize, &'static CharacterDataSpec)> = slots.iter().filter(|s| matches!(s.2, CharacterDataSpec::Enum { .. })).collect();
     par_items(ctx, &enum_slots, |(vi, t, spec), st| {
         if let CharacterDataSpec::Enum { items } = spec {
@@ -687,7 +687,7 @@ pub fn run(ctx: &Ctx) {
         st.class_n("slot-types:enum(version x enumeration)", enum_slots.len() as u64);
         ctx.merge(st);
     }
-    let cases = ctx.tier.pick(30_000u64, 1_500_000u64);
+    let cases = ctx.tier.pick(300_000u64, 3_000_000u64);
     let strat = (0u8..3, any::<u32>(), proptest::collection::vec(any::<u32>(), 0..16));
     run_prop(ctx, "slots", cases, strat, |(kind, sel, tape), st| {
         let mut t = Tape::new(tape);
